@@ -215,3 +215,136 @@ pub fn campaigns(ctx: &Ctx, targets: &[&str]) {
     }
     ctx.extra("fuzz", serde_json::Value::Object(stats));
 }
+
+/// The `exec` target (thorough tier of C01-C05, C07, C09): coverage-guided differential execution of single
+/// instructions.  `mns` restricts the campaign to the property's mnemonics (empty = every shape), `aspects`
+/// to the failure aspects the property owns (empty = all).  Seeds: one input per shape of the property.
+pub fn exec_campaign(ctx: &Ctx, mns: &[&str], aspects: &[&str]) {
+    use crate::l1::{run_case, Verdict, Worker};
+    let nightly_ok = Command::new("cargo").args(["+nightly", "fuzz", "--version"]).stdout(Stdio::null()).stderr(Stdio::null()).status().map(|s| s.success()).unwrap_or(false);
+    if !nightly_ok {
+        ctx.note("libFuzzer campaign skipped: cargo +nightly fuzz is not available");
+        ctx.extra("fuzz", json!({"skipped": "cargo-fuzz unavailable"}));
+        return;
+    }
+    let build = Command::new("bash")
+        .arg("-c")
+        .arg(format!("flock /verif/.build/lock cargo +nightly fuzz build --fuzz-dir {} exec >/verif/.build/fuzz-build.log 2>&1", FUZZ_DIR))
+        .env("CARGO_NET_OFFLINE", "true")
+        .status();
+    if !build.map(|s| s.success()).unwrap_or(false) {
+        ctx.note("libFuzzer campaign skipped: fuzz build failed (see /verif/.build/fuzz-build.log)");
+        ctx.extra("fuzz", json!({"skipped": "build failed"}));
+        return;
+    }
+    let shapes = crate::asm::enumerate_shapes();
+    let run_dir = format!("{}/exec-{}", RUN_ROOT, ctx.prop);
+    let _ = std::fs::remove_dir_all(&run_dir);
+    let corpus = format!("{}/corpus", run_dir);
+    let _ = std::fs::create_dir_all(&corpus);
+    let mut nseeds = 0usize;
+    let sel_total = shapes.iter().filter(|x| mns.is_empty() || mns.contains(&x.mn)).count();
+    let step = (sel_total / 2000).max(1);
+    for (i, s) in shapes.iter().enumerate() {
+        if !mns.is_empty() && !mns.contains(&s.mn) {
+            continue;
+        }
+        let mut b = vec![(i & 0xFF) as u8, (i >> 8) as u8];
+        let mut x = splitmix(ctx.seed ^ (i as u64) << 20 ^ fnv_str(ctx.prop));
+        while b.len() < 88 {
+            x = splitmix(x);
+            b.extend_from_slice(&x.to_le_bytes());
+        }
+        b.truncate(88);
+        // at most ~2000 seed inputs: every step-th shape of the selection
+        if nseeds % step == 0 {
+            let _ = std::fs::write(format!("{}/seed-{:05}", corpus, i), &b);
+        }
+        nseeds += 1;
+    }
+    let jobs = 14usize;
+    let runs: u64 = std::env::var("VERIF_FUZZ_RUNS").ok().and_then(|s| s.parse().ok()).unwrap_or(250_000);
+    let mut cmd = Command::new("cargo");
+    cmd.args(["+nightly", "fuzz", "run", "--fuzz-dir", FUZZ_DIR, "exec", &corpus, "--"])
+        .arg(format!("-runs={}", runs))
+        .arg(format!("-seed={}", (ctx.seed % 0x7FFF_FFFF).max(1)))
+        .args(["-len_control=0", "-max_len=96", "-timeout=25", "-rss_limit_mb=3000", "-print_final_stats=1", "-use_value_profile=1"])
+        .arg(format!("-artifact_prefix={}/", run_dir))
+        .arg(format!("-jobs={}", jobs))
+        .arg(format!("-workers={}", jobs))
+        .current_dir(&run_dir)
+        .env("CARGO_NET_OFFLINE", "true")
+        .env("VFUZZ_MNS", mns.join(","))
+        .env("VFUZZ_ASPECTS", aspects.join(","))
+        .stdout(Stdio::null())
+        .stderr(Stdio::null());
+    match cmd.status() {
+        Ok(_) => {}
+        Err(e) => {
+            ctx.note(&format!("fuzz target exec: cannot start: {}", e));
+            return;
+        }
+    }
+    let mut execs = 0u64;
+    let mut cov = 0u64;
+    let mut corp = 0u64;
+    let mut artifacts: Vec<String> = Vec::new();
+    if let Ok(rd) = std::fs::read_dir(&run_dir) {
+        for e in rd.filter_map(|e| e.ok()) {
+            let name = e.file_name().to_string_lossy().to_string();
+            if name.starts_with("fuzz-") && name.ends_with(".log") {
+                if let Ok(txt) = std::fs::read_to_string(e.path()) {
+                    for l in txt.lines() {
+                        if let Some(n) = l.strip_prefix("stat::number_of_executed_units:") {
+                            execs += n.trim().parse::<u64>().unwrap_or(0);
+                        }
+                        if l.starts_with('#') && l.contains(" cov: ") {
+                            let f = |key: &str| l.split(key).nth(1).and_then(|x| x.trim().split(|c: char| !c.is_ascii_digit()).next().map(|s| s.to_string())).and_then(|x| x.parse::<u64>().ok()).unwrap_or(0);
+                            cov = cov.max(f(" cov: "));
+                            corp = corp.max(f(" corp: "));
+                        }
+                    }
+                }
+            } else if name.starts_with("crash-") || name.starts_with("timeout-") || name.starts_with("oom-") {
+                artifacts.push(name);
+            }
+        }
+    }
+    artifacts.sort();
+    ctx.add_evals(execs);
+    ctx.class("fuzz/exec/runs", execs);
+    ctx.class("fuzz/exec/seeds", nseeds as u64);
+    ctx.extra("fuzz", json!({"exec": {"executed_units": execs, "coverage_edges": cov, "corpus": corp, "artifacts": artifacts.len(), "jobs": jobs, "seed_inputs": nseeds, "mnemonics": mns, "aspects": aspects}}));
+    if execs == 0 {
+        ctx.note(&format!("fuzz target exec: no executions recorded (see {}/fuzz-*.log)", run_dir));
+    }
+    let openq = crate::refmodel::Quirks::from_keys(|k| ctx.quirk_open(k));
+    let mut wk = Worker::new();
+    for a in artifacts.iter().take(20) {
+        let path = format!("{}/{}", run_dir, a);
+        let bytes = std::fs::read(&path).unwrap_or_default();
+        if !a.starts_with("crash-") {
+            ctx.inconclusive(&format!("libFuzzer exec produced {} (slow input or memory limit): {}", a, path));
+            continue;
+        }
+        let (case, stack) = crate::fuzzdec::decode_case(&bytes, &shapes);
+        match run_case(&mut wk, &case, &openq, &stack) {
+            Verdict::Fail { aspect, detail, replay } => {
+                if !aspects.is_empty() && !aspects.contains(&aspect.as_str()) {
+                    continue;
+                }
+                ctx.fail(Failure {
+                    key: format!("l1|{}|{}|{}", case.insn.mn, case.insn.form(), aspect),
+                    what: format!("[libFuzzer exec] {} {}: {}", crate::asm::canonical(&case.insn), aspect, detail),
+                    replay,
+                });
+            }
+            _ => {
+                let keep = format!("{}/replays/{}/fuzz-exec-{}", VERIF_DIR, ctx.prop, a);
+                let _ = std::fs::create_dir_all(format!("{}/replays/{}", VERIF_DIR, ctx.prop));
+                let _ = std::fs::copy(&path, &keep);
+                ctx.inconclusive(&format!("libFuzzer exec aborted on an input that the plain path handles (not reproducible in-process); artifact kept at {}", keep));
+            }
+        }
+    }
+}
